@@ -1,6 +1,7 @@
 """Real-domain scenario families: transcendental operations, judged through spec-generated terms."""
 import random
 import struct
+from realdom import unhex
 
 from progs import *
 import fam_model as FM
@@ -52,6 +53,7 @@ def real_op_cases(tier, seed, f32=False):
                 cases.append(steps)
     # tails and extremes: saturating sigmoids, large / tiny exponentials and logarithms, bases near zero
     tails = [("sigmoid", [-40.0, -30.0, -22.0, -18.5, -17.5, -12.0, 12.0, 17.5, 18.5, 25.0, 36.0, 0.0], {}),
+             ("sigmoid", [89.0, 95.0, 120.0, 300.0, -80.0, 60.0, -60.0, 45.0] if f32 else [710.0, 720.0, 800.0, 1000.0, -700.0, 300.0, -300.0, 95.0], {}),
              ("exp", [-60.0, -30.0, -10.0, 10.0, 30.0, 60.0, 0.0, 1e-9], {}),
              ("ln", [1e-12, 1e-6, 1e-3, 0.5, 1.0, 1e3, 1e9, 7e-4], {}),
              ("softmax", [-30.0, 0.0, 25.0, 1.0, -1.0, 18.0, -18.0, 3.0], {}),
@@ -253,6 +255,67 @@ def real_nonfinite_loss_cases(tier, seed, f32=False):
                     h += 10
                 cases.append(steps)
     return cases
+
+
+def pass_sum_cases(tier, seed):
+    """C10 as a RELATION between runs, bit for bit (double precision): a program with two passes on the same root
+    (different seeds, nothing cleared in between) next to two fresh instances of it that run only the first / only the
+    second pass.  Groups of three consecutive cases: both, first only, second only."""
+    rnd = random.Random(seed)
+    cases = []
+    for _ in range(400 if tier == "thorough" else 90):
+        d = rnd.choice([[2], [3], [2, 2]])
+        n = prod(d)
+        nl = rnd.randint(2, 3)
+        pre = [RESET] + [rleaf(1 + k, d, [rnd.uniform(-3.0, 3.0) * 10.0 ** rnd.randint(-3, 3) for _ in range(n)], trk=True) for k in range(nl)]
+        H = list(range(1, nl + 1))
+        h = 10
+        for _ in range(rnd.randint(2, 6)):
+            name = rnd.choice(["add", "mul", "sub", "mul", "neg", "scale"])
+            if name in ("neg", "scale"):
+                pre.append(op(name, [rnd.choice(H)], h, **({"c": rsc(rnd.uniform(-2.0, 2.0))} if name == "scale" else {})))
+            else:
+                pre.append(op(name, [rnd.choice(H), rnd.choice(H[:nl])], h))      # a leaf again and again: fan-out
+            H.append(h)
+            h += 1
+        root = H[-1]
+        s1 = {"op": "backward", "args": [root], "seed": rt(d, [rnd.uniform(-2.0, 2.0) * 10.0 ** rnd.randint(-2, 6) for _ in range(n)])}
+        s2 = {"op": "backward", "args": [root], "seed": rt(d, [rnd.uniform(-2.0, 2.0) for _ in range(n)])}
+        cases += [pre + [s1, s2], pre + [s1], pre + [s2]]
+    return cases
+
+
+def relate_pass_sums(res, prog_path, ev_path, workdir):
+    """post-processing hook: after both passes every gradient must be, bit for bit, the floating-point sum of the
+    gradients the two passes leave when each runs alone (why = "pass-sum-differs").  Recorded observations only."""
+    import json
+    by_case = {}
+    with open(ev_path) as f:
+        for ln in f:
+            e = json.loads(ln)
+            by_case.setdefault(e["case"], []).append(e)
+    bad_cases = {m["case"] for m in res["mismatches"]} | {u["case"] for u in res["unspec"]}
+
+    def grads(evs):
+        last = [e for e in evs if e["op"] == "backward" and not e.get("panic")]
+        return {o["h"]: [unhex(x) for x in o["gt"]["hx"]] for o in last[-1]["live"] if "gt" in o} if last else None
+
+    ncmp = 0
+    for c in sorted(by_case):
+        if c % 3 != 0 or {c, c + 1, c + 2} & bad_cases or c + 2 not in by_case:
+            continue
+        both, g1, g2 = grads(by_case[c]), grads(by_case[c + 1]), grads(by_case[c + 2])
+        if both is None or g1 is None or g2 is None:
+            continue
+        ncmp += 1
+        ok = set(both) == set(g1) == set(g2) and all(
+            struct.pack("<d", x + y) == struct.pack("<d", z) or (x + y != x + y and z != z)
+            for h in both for x, y, z in zip(g1[h], g2[h], both[h]))
+        if not ok:
+            res["mismatches"].append({"case": c, "i": by_case[c][-1]["i"], "op": "backward", "why": "pass-sum-differs"})
+            res["summary"]["bad"] = res["summary"].get("bad", 0) + 1
+    res["summary"]["pass_sums_compared"] = ncmp
+    return res
 
 
 def real_layer_cases(tier, seed, f32=False):
